@@ -18,6 +18,6 @@ for d in sorted(glob.glob('/verif/seeded/*/')):
     rows.append(f"| `{os.path.basename(d[:-1])}` | {what} | {needs} | {status}{' — '+note if note else ''} |")
 table="| seeded change | what it breaks | what it needs to manifest | quick checks |\n|---|---|---|---|\n"+"\n".join(rows)
 p='/verif/DESIGN.md'; s=open(p).read()
-s=re.sub(r'<!-- SEEDED-TABLE-BEGIN -->.*?<!-- SEEDED-TABLE-END -->', '<!-- SEEDED-TABLE-BEGIN -->\n'+table+'\n<!-- SEEDED-TABLE-END -->', s, flags=re.S)
+s=re.sub(r'<!-- SEEDED-TABLE-BEGIN -->.*?<!-- SEEDED-TABLE-END -->', lambda m: '<!-- SEEDED-TABLE-BEGIN -->\n'+table+'\n<!-- SEEDED-TABLE-END -->', s, flags=re.S)
 open(p,'w').write(s)
 print(len(rows),'rows')
